@@ -115,6 +115,24 @@ theorem cacheStore_inv (clock : Nat → Nat) (off : Nat) (cfg : Cfg) (mem : Mem)
         · exact inv_set _ _ _ _ _ h hnew
       · exact inv_set _ _ _ _ _ h hnew
 
+/-- an error response (rcode ≠ 0) is stored set-if-absent: if the key has a node, Store changes nothing -/
+theorem cacheStore_neg_present (clock : Nat → Nat) (cfg : Cfg) (mem : Mem) (k : Nat) (m : Msg)
+    (now delay id : Nat) (e : Entry) (hneg : m.rcode ≠ 0) (hlive : mem k = some e) :
+    cacheStore clock cfg mem k (some m) now delay id = mem := by
+  unfold cacheStore
+  cases hs : store cfg.hasBackend (some m) cfg.maximumTtl with
+  | none => rfl
+  | some c =>
+    have hc := store_some _ _ _ _ hs
+    have hnx : c.setNX = true := by rw [hc.2.2.2.2]; simp [hneg]
+    simp [otterSet, hnx, hlive]
+
+/-- a positive response (rcode 0, not truncated) is stored with Set and replaces whatever is there -/
+theorem cacheStore_pos (clock : Nat → Nat) (cfg : Cfg) (mem : Mem) (k : Nat) (m : Msg) (now delay id : Nat)
+    (hb : cfg.hasBackend = true) (htc : m.tc = false) (hpos : m.rcode = 0) :
+    ∃ e, cacheStore clock cfg mem k (some m) now delay id k = some e ∧ e.msg = m ∧ e.id = id ∧ e.stored = now := by
+  simp [cacheStore, store, hb, htc, hpos, otterSet, Mem.set]
+
 /-- a hit, unfolded -/
 theorem cacheGet_some (clock : Nat → Nat) (mem : Mem) (k now : Nat) (served : Msg) (e : Entry)
     (h : cacheGet clock mem k now = some (served, e)) :
@@ -237,5 +255,100 @@ theorem run_sound (clock : Nat → Nat) (off : Nat) (cfg : Cfg) (hclk : ClockOK 
     have := ih (step clock cfg mem id s).1 (id + 1) (fun x hx => hp x (by simp [hx])) hs
     simp only [runFrom]
     exact ⟨this.1, ho, this.2⟩
+
+/-! ### the lifetime policy against the property text -/
+
+/-- The lifetime `cacheCtl.Store` gives to a response, for every message and every configured maximum whose
+    seconds·10⁹ fit int64: at least 1 s; at most the configured maximum (6 h when the setting is ≤ 0); at most
+    30 s for NXDOMAIN; exactly 1 s for SERVFAIL; at most 5 s for the other error codes; at most 30 s for an answer
+    without records; at most the smallest record TTL when there are records (1 s when that TTL is 0). -/
+theorem lifetimeBounds (m : Msg) (cfgMax : Int) (h1 : -9223372037 < cfgMax) (h2 : cfgMax < 9223372037) :
+    second ≤ storeTtl m (initMaxTtl cfgMax) ∧
+    storeTtl m (initMaxTtl cfgMax) ≤ initMaxTtl cfgMax ∧
+    (cfgMax ≤ 0 → storeTtl m (initMaxTtl cfgMax) ≤ 21600 * second) ∧
+    (0 < cfgMax → storeTtl m (initMaxTtl cfgMax) ≤ cfgMax * second) ∧
+    (m.rcode = 3 → storeTtl m (initMaxTtl cfgMax) ≤ 30 * second) ∧
+    (m.rcode = 2 → storeTtl m (initMaxTtl cfgMax) = second) ∧
+    (m.rcode ≠ 0 → m.rcode ≠ 2 → m.rcode ≠ 3 → storeTtl m (initMaxTtl cfgMax) ≤ 5 * second) ∧
+    ((getMinimalTTL m).2 = false → storeTtl m (initMaxTtl cfgMax) ≤ 30 * second) ∧
+    ((getMinimalTTL m).2 = true → 1 ≤ (getMinimalTTL m).1.toNat →
+        storeTtl m (initMaxTtl cfgMax) ≤ (getMinimalTTL m).1.toNat * second) ∧
+    ((getMinimalTTL m).2 = true → (getMinimalTTL m).1.toNat = 0 → storeTtl m (initMaxTtl cfgMax) = second) := by
+  have hcapv := initMaxTtl_eq cfgMax h1 h2
+  have hcap : second ≤ initMaxTtl cfgMax := by
+    rw [hcapv]; unfold defaultMaxCacheTtl second; split <;> omega
+  rw [storeTtl_eq]
+  have hb := baseTtl_bounds m.rcode (getMinimalTTL m).1.toNat (getMinimalTTL m).2
+  have hc := clampTtl_bounds _ (initMaxTtl cfgMax) hcap hb.1
+  generalize baseTtl m.rcode (getMinimalTTL m).1.toNat (getMinimalTTL m).2 = B at hb hc ⊢
+  generalize clampTtl B (initMaxTtl cfgMax) = L at hc ⊢
+  generalize (getMinimalTTL m).1.toNat = u at hb ⊢
+  obtain ⟨-, b3, b2, b5, bno, bhas⟩ := hb
+  obtain ⟨c1, c2, c3, c4⟩ := hc
+  unfold defaultMaxCacheTtl at hcapv
+  unfold second at *
+  refine ⟨c1, c2, ?_, ?_, ?_, ?_, ?_, ?_, ?_, ?_⟩
+  · intro h; rw [hcapv] at c2; simp only [h, if_true] at c2; omega
+  · intro h; rw [hcapv] at c2; have : ¬ cfgMax ≤ 0 := by omega
+    simp only [this, if_false] at c2; exact c2
+  · intro h; have := b3 h; omega
+  · intro h; have := b2 h; omega
+  · intro h0 h2' h3; have := b5 h0 h2' h3; omega
+  · intro h; have := bno h; omega
+  · intro h hu; have := bhas h; omega
+  · intro h hu; have := bhas h; omega
+
+theorem le_max1_min (L : Int) (a b : Nat) (ha : L ≤ (Nat.max 1 a : Nat) * 1000000000)
+    (hb : L ≤ (Nat.max 1 b : Nat) * 1000000000) : L ≤ (Nat.max 1 (Nat.min a b) : Nat) * 1000000000 := by
+  simp only [Nat.max_def, Nat.min_def] at *
+  split at ha <;> split at hb <;> (repeat' split) <;> omega
+
+theorem le_max1 (L : Int) (a : Nat) (ha : L ≤ (a : Nat) * 1000000000) : L ≤ (Nat.max 1 a : Nat) * 1000000000 := by
+  simp only [Nat.max_def]
+  split <;> omega
+
+/-- the policy's lifetime never exceeds the lifetime of the property text (at least one second) -/
+theorem storeTtl_le_spec (m : Msg) (cfgMax : Int) (h1 : -9223372037 < cfgMax) (h2 : cfgMax < 9223372037) :
+    storeTtl m (initMaxTtl cfgMax) ≤ (Nat.max 1 (specLifetime m cfgMax) : Nat) * 1000000000 := by
+  obtain ⟨b1, -, bd, bc, b3, b2, b5, bno, bhas, bzero⟩ := lifetimeBounds m cfgMax h1 h2
+  generalize storeTtl m (initMaxTtl cfgMax) = L at *
+  unfold second at *
+  -- the cap
+  have hcap : L ≤ (Nat.max 1 (specCap cfgMax) : Nat) * 1000000000 := by
+    apply le_max1
+    unfold specCap
+    by_cases hc : cfgMax ≤ 0
+    · have := bd hc; simp only [hc, if_true]; omega
+    · have := bc (by omega); simp only [hc, if_false]; omega
+  -- the records
+  have hrec : L ≤ (Nat.max 1 (match specMinTtl m with | none => specCap cfgMax | some t => Nat.min t (specCap cfgMax)) : Nat) * 1000000000 := by
+    rcases getMinimalTTL_eq m with ⟨hs, hg⟩ | ⟨t, hs, hg2, hg1⟩
+    · rw [hs]; exact hcap
+    · rw [hs]
+      apply le_max1_min _ _ _ _ hcap
+      by_cases ht : 1 ≤ t
+      · have := bhas hg2 (by omega); rw [hg1] at this
+        apply le_max1; omega
+      · have := bzero hg2 (by omega)
+        have ht0 : t = 0 := by omega
+        subst ht0
+        show L ≤ ((1 : Nat) : Int) * 1000000000
+        omega
+  unfold specLifetime
+  apply le_max1_min _ _ _ hrec
+  by_cases r3 : m.rcode = 3
+  · have := b3 r3; rw [if_pos r3]; apply le_max1; omega
+  · rw [if_neg r3]
+    by_cases r2 : m.rcode = 2
+    · have := b2 r2; rw [if_pos r2]; apply le_max1; omega
+    · rw [if_neg r2]
+      by_cases r0 : m.rcode = 0
+      · rw [if_neg (by simp [r0])]
+        rcases getMinimalTTL_eq m with ⟨hs, hg⟩ | ⟨t, hs, hg2, hg1⟩
+        · have := bno (by rw [hg]); rw [hs]; simp only [Option.isNone_none, if_true]; apply le_max1; omega
+        · rw [hs] at hrec ⊢; simpa using hrec
+      · have := b5 r0 r2 r3
+        rw [if_pos r0]
+        apply le_max1; omega
 
 end MosVerif.Ttl
